@@ -82,7 +82,27 @@ func setAlgebra[S ~map[int]struct{}](x *cx, sets []S, tn string) {
 		}
 		return fmt.Sprint(fn, "|", tn, "|", in)
 	}
+	// the argument list goes to the library as a sentinel-guarded sub-slice with spare capacity
+	sentSet := S{-12345: {}}
+	ol := guardOuter(sets, sentSet)
+	callerSets := sets
+	sets = ol.s
 	unchanged := func(fn string) bool {
+		if why := ol.changed(sameMap[S]); why != "" {
+			x.fail(fn+"-modified-arguments", fmt.Sprintf("%s%s modified the caller's variadic argument slice: %s", fn, in, why), nil)
+			return false
+		}
+		if len(sentSet) != 1 {
+			x.fail(fn+"-modified-arguments", fmt.Sprintf("%s%s wrote into a set that lies beyond the end of the argument list", fn, in), nil)
+			return false
+		}
+		for i := range callerSets {
+			if !sameMap(callerSets[i], sets[i]) {
+				x.fail(fn+"-modified-arguments", fmt.Sprintf("%s%s: argument %d is no longer the caller's set", fn, in, i), nil)
+				return false
+			}
+		}
+		x.observe("argument integrity", fn)
 		for i, s := range sets {
 			if !eqSet(s, before[i]) || (s == nil) != wasNil[i] {
 				x.fail(fn+"-modified-input", fmt.Sprintf("%s%s modified input set %d (now %s)", fn, in, i, showSet(s)), nil)
